@@ -179,7 +179,7 @@ Theorem C12_select_expression :
       unescape_to_string f64_from_str b args (S fuel) (Select selector variants) sc =
     match selected rules f64_from_str sel ops variants with
     | Some value => pattern_write overflow_checks call_function transform formatter rules custom_as_string
-                      unescape_write unescape_to_string f64_from_str b args fuel value sc2
+                      unescape_write unescape_to_string f64_from_str b args fuel None value sc2
     | None => Done ([], add_error sc2 MissingDefault)
     end.
 Proof. intros. eapply select_expression; eassumption. Qed.
@@ -232,7 +232,7 @@ Theorem C12_select_literal :
       unescape_to_string f64_from_str_exact b args (S (S fuel)) (Select (NumberLiteral s) variants) sc =
     match selected rules f64_from_str_exact n ops variants with
     | Some value => pattern_write overflow_checks call_function transform formatter rules custom_as_string
-                      unescape_write unescape_to_string f64_from_str_exact b args (S fuel) value sc2
+                      unescape_write unescape_to_string f64_from_str_exact b args (S fuel) None value sc2
     | None => Done ([], add_error sc2 MissingDefault)
     end.
 Proof.
@@ -299,7 +299,7 @@ Definition ex_select (loc : string) (selector : inline) (variants : list variant
   let p := Pattern [PlaceableElement (Select selector variants)] in
   let bd := Bundle [(bs "NUMBER", EFunction FnNUMBER)] false in
   match format_pattern true (fun _ _ _ => VError) None None (rules_for_locale (bs loc)) (fun x => x) (fun x => x) (fun x => x)
-          f64_from_str_exact bd args (fuel_of bd p) p [] with
+          f64_from_str_exact bd args (fuel_of bd p) None p [] with
   | Done (t, sc) => Some (t, length (sc_errors sc))
   | _ => None
   end.
